@@ -638,8 +638,9 @@ func c20WellBehaved(ops []c20Op, ret int) bool {
 	}
 	return true
 }
-// c20CutShort: some body call was cut short by the writer AFTER it had accepted bytes that the recorder
-// then does not count: a Write / WriteString that accepted F > 0 bytes, a copy cut inside a chunk
+// c20CutShort: some body call was cut short by the writer AFTER it had accepted bytes (the call reported
+// n > 0 together with an error; the recorder has to count those n bytes — F-C20-6, repaired): a Write /
+// WriteString that accepted F > 0 bytes, a copy cut inside a chunk
 // (outs: what the calls reported on a connection the client reset; nil: the scripted cuts)
 func c20CutShort(ops []c20Op, outs []c20Out) bool {
 	bi := 0
